@@ -60,7 +60,7 @@ def r1(ctx):
     # H3 core.pyx positional order
     a3 = ctx.func("whatshap.core.Pedigree.add_relationship")
     calls = [c for c in ctx.prog.calls_in(a3.node) if u(c.func) == "self.thisptr.addRelationship"]
-    ok = len(calls) == 1 and [u(a) for a in calls[0].args] == ["self.numeric_sample_ids[%s]" % p for p in ("father_id", "mother_id", "child_id")] and params3 == ["father_id", "mother_id", "child_id"]
+    ok = (None if not calls else (len(calls) == 1 and [u(a) for a in calls[0].args] == ["self.numeric_sample_ids[%s]" % p for p in ("father_id", "mother_id", "child_id")] and params3 == ["father_id", "mother_id", "child_id"]))
     hop("3 core.pyx -> C++ positional order", ok, a3.loc(), "addRelationship(ids[father_id], ids[mother_id], ids[child_id])", "core.pyx passes %s" % ([u(a) for a in calls[0].args] if calls else "?"))
     # H4/H5 C++ parameter order and triple slots
     objs = clangq.dump(ctx.prog, "src/pedigree.cpp", "Pedigree::addRelationship")
@@ -155,13 +155,13 @@ def r1(ctx):
     calls = [clangq.expr_text(c) for c in clangq.find(gs[0], "CXXMemberCallExpr") if clangq.callee_name(c) in ("addVariant", "add")]
     av = [c for c in calls if "addVariant" in c]
     ad = [c for c in calls if "->add(" in c]
-    ok = len(av) == 2 and "superreads[k].first->addVariant" in av[0] and "population_alleles[k].allele0" in av[0] and "superreads[k].second->addVariant" in av[1] and "population_alleles[k].allele1" in av[1]
+    ok = (None if not av else (len(av) == 2 and "superreads[k].first->addVariant" in av[0] and "population_alleles[k].allele0" in av[0] and "superreads[k].second->addVariant" in av[1] and "population_alleles[k].allele1" in av[1]))
     ok = ok and len(ad) == 2 and "at(k)->add(superreads[k].first)" in ad[0] and "at(k)->add(superreads[k].second)" in ad[1]
     hop("8 super-read first/second <- allele0/allele1, added in that order", ok, "src/pedigreedptable.cpp:%s" % clangq.line_of(gs[0]), "super-read .first gets allele0, .second gets allele1; they are added first, second to read set k (pedigree index k)", "get_super_reads no longer routes allele0 -> first, allele1 -> second in this order: %s" % calls)
     # H9 python side: index order, same family sequence, tuple order
     gsp = ctx.func("whatshap.core.PedigreeDPTable.get_super_reads")
     loops = [n for n in walk_function(gsp.node) if isinstance(n, ast.For) and u(n.iter) == "range(read_sets.size())"]
-    ok = len(loops) == 1 and any(isinstance(c, ast.Call) and u(c.func) == "results.append" for c in ast.walk(loops[0])) and any(isinstance(s, ast.Assign) and u(s.value) == "deref(read_sets)[%s]" % u(loops[0].target) for s in ast.walk(loops[0]))
+    ok = (None if not loops else (len(loops) == 1 and any(isinstance(c, ast.Call) and u(c.func) == "results.append" for c in ast.walk(loops[0])) and any(isinstance(s, ast.Assign) and u(s.value) == "deref(read_sets)[%s]" % u(loops[0].target) for s in ast.walk(loops[0]))))
     hop("9a core.pyx returns read sets in pedigree index order", ok, gsp.loc(), "results[i] wraps read set i", "core.pyx no longer returns the read sets in index order")
     run = ctx.func(PH + ".run_whatshap")
     z = [n for n in walk_function(run.node) if isinstance(n, ast.For) and u(n.iter) == "zip(family, superreads_list)"]
@@ -171,7 +171,7 @@ def r1(ctx):
     if cpc:
         amap = dict(zip(util.params_of(cp.node), [u(a) for a in cpc[0].args]))
         fam_arg = amap.get("family")
-    ok = len(z) == 1 and len(cpl) == 1 and fam_arg == "family" and any(isinstance(s, ast.Assign) and u(s.targets[0]) == "superreads[%s]" % u(z[0].target.elts[0]) and u(s.value) == u(z[0].target.elts[1]) for s in ast.walk(z[0]))
+    ok = (None if not z else (len(z) == 1 and len(cpl) == 1 and fam_arg == "family" and any(isinstance(s, ast.Assign) and u(s.targets[0]) == "superreads[%s]" % u(z[0].target.elts[0]) and u(s.value) == u(z[0].target.elts[1]) for s in ast.walk(z[0]))))
     sl = util.single_def(run.node, "superreads_list")
     oks = any(isinstance(n, ast.Assign) and isinstance(n.targets[0], ast.Tuple) and u(n.targets[0].elts[0]) == "superreads_list" and u(n.value) == "dp_table.get_super_reads()" for n in walk_function(run.node))
     hop("9b same family sequence for add_individual and for zip with the result", ok and oks, run.loc(z[0]) if z else run.loc(), "individuals are added in `family` order and the solver's read sets are zipped with the same `family`", "the family sequence used for add_individual and the one zipped with the super reads differ")
@@ -200,7 +200,7 @@ def r1(ctx):
                 stale = (f_, m_, p_)
     hop("3b representatives read after all merges", stale is None, sf.loc(stale[0]) if stale else sf.loc(), "no family_finder.merge is reachable after a family_finder.find: families and family_trios are keyed by final representatives", "%s is evaluated while merges are still to come (%s): a trio/sample is filed under a representative that later changes, so the trio is missing from its family's pedigree" % (u(stale[0]) if stale else "", u(stale[1]) if stale else ""))
     ft = [s_ for s_ in util.store_sites(sf.node) if s_.kind == "call" and s_.method == "append" and u(s_.target).startswith("family_trios[")]
-    ok = len(ft) == 1 and isinstance(ft[0].stmt.parent, ast.For) and u(ft[0].stmt.parent.iter) == "all_trios" and u(ft[0].call.args[0]) == u(ft[0].stmt.parent.target) and u(ft[0].target) == "family_trios[family_finder.find(%s.child)]" % u(ft[0].stmt.parent.target)
+    ok = (None if not ft else (len(ft) == 1 and isinstance(ft[0].stmt.parent, ast.For) and u(ft[0].stmt.parent.iter) == "all_trios" and u(ft[0].call.args[0]) == u(ft[0].stmt.parent.target) and u(ft[0].target) == "family_trios[family_finder.find(%s.child)]" % u(ft[0].stmt.parent.target)))
     hop("3c every trio filed under its child's family", ok, sf.loc(ft[0].stmt) if ft else sf.loc(), "for trio in all_trios: family_trios[find(trio.child)].append(trio)", "not every trio of the pedigree is appended to family_trios under its child's family")
 
 
@@ -272,7 +272,7 @@ def r2(ctx):
     ok = hp is not None and isinstance(hp, ast.ListComp) and u(hp.generators[0].iter) in ("to_retain.intersection(homozygous)", "homozygous.intersection(to_retain)", "to_retain & homozygous") and u(hp.elt) == "variant_table.variants[%s].position" % u(hp.generators[0].target)
     ctx.ob(fi.qual, "homozygous-positions-are-retained", ok, fi.loc(), "homozygous_positions ⊆ retained variants" if ok else "homozygous_positions is %s" % (u(hp) if hp is not None else "?"))
     rm = [c for c in ctx.prog.calls_in(fi.node) if u(c.func) == "phasable_variant_table.remove_rows_by_index"]
-    ok = len(rm) == 1 and u(rm[0].args[0]) == "to_discard" and u(util.single_def(fi.node, "phasable_variant_table")) == "deepcopy(variant_table)"
+    ok = (None if not rm else (len(rm) == 1 and u(rm[0].args[0]) == "to_discard" and u(util.single_def(fi.node, "phasable_variant_table")) == "deepcopy(variant_table)"))
     ctx.ob(fi.qual, "discarded-rows-removed", ok, fi.loc(), "to_discard rows are removed from a copy of the table" if ok else "to_discard is not removed from the phasable table")
     # classification of genotypes
     adds = {u(c.func): c for c in ctx.prog.calls_in(fi.node) if isinstance(c.func, ast.Attribute) and c.func.attr == "add"}
@@ -318,7 +318,7 @@ def r2(ctx):
     except ValueError as e_:
         ctx.ob(pc.qual, "both-origin-assignments-tested", None, pc.loc(), "mendelian_conflict is not a decision over the four membership tests of the child's two alleles in the parents' genotypes (%s)" % e_)
     fp = [c for c in ctx.prog.calls_in(fi.node) if u(c.func) == "find_mendelian_conflicts"]
-    ok = len(fp) == 1 and [u(a) for a in fp[0].args] == ["trios", "variant_table"]
+    ok = (None if not fp else (len(fp) == 1 and [u(a) for a in fp[0].args] == ["trios", "variant_table"]))
     ctx.ob(fi.qual, "conflicts-of-this-familys-trios", ok, fi.loc(), "conflicts are computed for this family's trios on the full table" if ok else "find_mendelian_conflicts arguments changed")
 
 
@@ -343,7 +343,7 @@ def r3(ctx):
     ok = sig.get("genetic_haplotyping") == "True"
     ctx.ob(run.qual, "api-default-on", ok, run.loc(), "run_whatshap(genetic_haplotyping=True) by default" if ok else "run_whatshap's default for genetic_haplotyping is %s" % sig.get("genetic_haplotyping"))
     sub = [c for c in ctx.prog.calls_in(run.node) if u(c.func) == "phasable_variant_table.subset_rows_by_position"]
-    ok = len(sub) == 1 and u(sub[0].args[0]) == "accessible_positions"
+    ok = (None if not sub else (len(sub) == 1 and u(sub[0].args[0]) == "accessible_positions"))
     ctx.ob(run.qual, "table-restricted-to-accessible", ok, run.loc(), "the phasable table is cut down to the accessible positions" if ok else "subset_rows_by_position(accessible_positions) missing")
 
 
